@@ -46,6 +46,25 @@ CLAIMED = {
         tech="deterministic simulation under virtual time; history oracles (bounds, metamorphic, differential)"),
 }
 
+CLAIMED.update({
+    "C14": dict(cat="exploration", ref="DESIGN.md 4 (C14)",
+        text="Seeded configurations started through passage::start(config) with built-in adapters, or as a Listener with sim services whose discovery never answers, on the simulated network; clients probe the configured frame limit at max / max+1, cookies at expiry-1 / expiry / expiry+1 under the configured or another secret, and the deadline (silent, trickling one byte every k s, stopping after n frames, echoing keep-alives forever). Oracle: served / refused according to the configured values, server end closed no later than timeout after accept.",
+        note="PROXY off here; built-in Fixed adapters stand in for back-ends in start mode; ctrl-c never raised.",
+        tech="deterministic simulation on an in-memory network; config-conformance and deadline invariants"),
+    "C15": dict(cat="exploration", ref="DESIGN.md 4 (C15)",
+        text="Seeded arrival histories of up to 40 connections through 1-3 load-balancer peers with PROXY v1/v2 headers from an independent writer (valid, LOCAL/UNKNOWN, bad signature, truncated+EOF, absent, disabled version), limiter off or small enough to refuse; oracle: a second real RateLimiter fed with the effective IPs of the valid connections at the same virtual instants decides who must be served; refused and invalid connections receive zero bytes; services and issued cookies see the announced source.",
+        note="Headers arrive with the first segment; the shadow limiter is the real one so limiter defects are not misattributed.",
+        tech="deterministic simulation on an in-memory network; shadow-limiter history oracle"),
+    "C16": dict(cat="exploration", ref="DESIGN.md 4 (C16)",
+        text="1-20 hostile clients (silent before / stalled inside / trickling the PROXY header, stopping mid-protocol, stalled mid-frame, never echoing, never reading) plus one well-behaved victim; every scenario is run with everybody and with the victim alone and the victim's timestamped trace must be identical (compute is free in virtual time, so any difference is waiting caused by another connection).",
+        note="Victim has its own effective IP so the limiter cannot couple it to the others.",
+        tech="deterministic simulation; non-interference as timed-trace equality with the solo run"),
+    "C17": dict(cat="exploration", ref="DESIGN.md 4 (C17)",
+        text="0-10 connections at various stages and a stop request at a random instant, deliberately also at the exact instant of a connect (issued before or after it); each scenario runs with and without the stop. Oracle: nothing served to connections that arrived after the stop, they see EOF by the time listen() returns; connections accepted strictly before the stop end exactly as in the stop-free run; listen() returns Ok, no earlier than the last served connection's end and within the timeout.",
+        note="Connects issued at the stop's own instant before it count as queued: fully served or nothing are both accepted. Keep Alive packets are excluded from the comparison (tick ties).",
+        tech="deterministic simulation with a stop signal at arbitrary and tied instants; differential drain oracle"),
+})
+
 NOT_APPLICABLE = {
     "C09": "pure codec function of the packet value; in Connection the codec only ever runs on a fully buffered frame, so no schedule, clock or fault reaches it (stream-level decoding under segmentation is C08)",
     "C11": "minecraft_hash is a pure function of three byte strings; nothing to schedule or inject",
